@@ -70,7 +70,7 @@ func main() {
 			fmt.Fprintln(os.Stderr, err)
 			os.Exit(2)
 		}
-		for _, f := range p.RepoFuncs {
+		for _, f := range p.AllFuncs {
 			if strings.Contains(fnName(f), pos[0]) {
 				fmt.Printf("### %s  (%s)\n", fnName(f), p.Pos(f.Pos()))
 				f.WriteTo(os.Stdout)
@@ -82,7 +82,7 @@ func main() {
 			fmt.Fprintln(os.Stderr, err)
 			os.Exit(2)
 		}
-		for _, f := range p.RepoFuncs {
+		for _, f := range p.AllFuncs {
 			fmt.Printf("%s\t%s\t%d blocks\n", fnName(f), p.Pos(f.Pos()), len(f.Blocks))
 		}
 	case "loops":
@@ -92,7 +92,7 @@ func main() {
 			os.Exit(2)
 		}
 		n, un := 0, 0
-		for _, f := range p.RepoFuncs {
+		for _, f := range p.AllFuncs {
 			for _, lc := range classifyLoops(f) {
 				n++
 				if lc.Variant == "" {
@@ -109,7 +109,7 @@ func main() {
 			os.Exit(2)
 		}
 		e := newUnitEngine(p)
-		fs := e.allFindings(p.RepoFuncs)
+		fs := e.allFindings(p.AllFuncs)
 		keys := unitFindingKeys(fs)
 		for i, f := range fs {
 			fmt.Printf("%s  [%s] %s %s\n", keys[i], p.IPos(f.In), f.In.String(), f.Why)
@@ -122,7 +122,7 @@ func main() {
 			os.Exit(2)
 		}
 		n := 0
-		for _, f := range p.RepoFuncs {
+		for _, f := range p.AllFuncs {
 			if len(pos) > 0 && !strings.Contains(fnName(f), pos[0]) {
 				continue
 			}
@@ -172,7 +172,7 @@ func main() {
 		z := &zoneEngine{p: p, contracts: coreContracts(), fieldMinLen: map[string]int64{}, useGetters: true, useHeap: os.Getenv("ZONE_HEAP") != "", entryNonneg: sortCallbackParams(p)}
 		nOK, nBad, nLow := 0, 0, 0
 		lowerOnly := os.Getenv("ZONE_LOWER") != ""
-		for _, f := range p.RepoFuncs {
+		for _, f := range p.AllFuncs {
 			if len(pos) > 0 && !strings.Contains(fnName(f), pos[0]) {
 				continue
 			}
@@ -254,7 +254,7 @@ func runCheck(prop, tier, repo, verif string) (code int) {
 		r.Unk(prop+".load", "load:linux/amd64", "-", fmt.Sprintf("only %d module packages loaded, expected ≥ 13", n))
 		return r.Finish(verif, start, seed)
 	}
-	r.OK(prop+".load", "load:linux/amd64", "-", fmt.Sprintf("%d packages, %d repo functions, %d call-graph nodes", p.NumRepoPackages(), len(p.RepoFuncs), len(p.CG.Nodes)))
+	r.OK(prop+".load", "load:linux/amd64", "-", fmt.Sprintf("%d packages, %d repo functions, %d call-graph nodes", p.NumRepoPackages(), len(p.AllFuncs), len(p.CG.Nodes)))
 	r.Configs = append(r.Configs, "linux/amd64")
 	c := &Ctx{P: p, R: r, Tier: tier, Repo: repo, Verif: verif, Others: map[string]*Prog{}}
 	defer func() {
@@ -288,7 +288,7 @@ func (c *Ctx) loadOther(goos, goarch string) *Prog {
 		c.Others[key] = nil
 		return nil
 	}
-	c.R.OK(rule, "load:"+key, "-", fmt.Sprintf("%d packages, %d repo functions", p.NumRepoPackages(), len(p.RepoFuncs)))
+	c.R.OK(rule, "load:"+key, "-", fmt.Sprintf("%d packages, %d repo functions", p.NumRepoPackages(), len(p.AllFuncs)))
 	c.R.Configs = append(c.R.Configs, key)
 	c.Others[key] = p
 	return p
